@@ -119,6 +119,29 @@ def otaa_handle_rx(c, res):
     res.coverage['otaa_handle_rx_effects'] = len(evs)
 
 
+def rxc_during_join(c, res):
+    """a frame heard by the Class C listening of a running transaction must not end it: Mac::handle_rxc may answer with an error (which the
+    front-end propagates out of join() / send() with `?`) only when there is no session and no join in progress (State::Unjoined); in the
+    Otaa state - the device listens between the JoinRequest and its windows - an unrelated frame is 'no update'"""
+    name = 'lorawan_device::mac::Mac::handle_rxc'
+    if not c.has(name):
+        return
+    bf = c.bf(name)
+    sv = rules.variants_of(c.prog, 'mac::State')
+    errs = []
+    for b in bf.body.blocks:
+        if b.cleanup or b.idx not in bf.cfg.reach:
+            continue
+        for s_ in b.stmts:
+            if s_.k == 'assign' and s_.rv.k == 'agg' and s_.rv.d.get('variant') == 'Err' and (s_.rv.d.get('adt') or '').endswith('Result'):
+                ds = [cn for cn in rules.path_conditions(bf, b.idx) if isinstance(cn[0], tuple) and cn[0][:1] == ('discr',) and 'state' in term_str(cn[0])]
+                errs.append((b.idx, ds[-1][1] if ds else None))
+    bad = [e for e in errs if e[1] != (sv.get('Unjoined'),)]
+    res.require(not bad, 'C07:Mac::handle_rxc:error-only-when-unjoined', 'Mac::handle_rxc answers with an error in a state other than Unjoined (state tests %s): during a join the Class C listening between the '
+                'windows hands every frame heard to it, and the error ends join() although the JoinAccept can still arrive' % [e[1] for e in bad], bf.body.path,
+                'VARIANT(Err only for State::Unjoined)', instance='Mac::handle_rxc: a frame heard while a join is in progress is no update (error only when unjoined)')
+
+
 def mac_handle_rx(c, res):
     for fn, floor in (('handle_rx', 1), ('handle_rxc', 0)):
         name = 'lorawan_device::mac::Mac::' + fn
@@ -257,6 +280,7 @@ def run(tier):
         session_handle_rx(c, res)
         otaa_handle_rx(c, res)
         mac_handle_rx(c, res)
+        rxc_during_join(c, res)
         nb_noupdate(c, res)
         async_noupdate(c, res)
         res.coverage.setdefault('configs', []).append(c.info)
